@@ -14,7 +14,7 @@ const HUGE: &str = "999999999999999999999999999999999999999999999999999999999999
 pub fn atoms() -> Vec<&'static str> {
     vec![
         "PRINT", "GOTO", "GO", "TO", "IF", "X", "A$", "$", "12", ".5", ".", "<", "=", ">", "(",
-        "+", "\"s t\"", "\"", " ", "\t", "é", "%", ":", ",", "REM r ", "DATA d , e ", "NOT", "1", HUGE, "\"ıŉ\"", "ŉ", "\u{c}", "\u{a0}",
+        "+", "\"s t\"", "\"", " ", "\t", "é", "%", ":", ",", "REM r ", "DATA d , e ", "NOT", "1", HUGE, "\"ıŉ\"", "ŉ", "\u{c}", "\u{a0}", "\u{1f60a}", "DATA",
     ]
 }
 
